@@ -403,7 +403,6 @@ func (o op) String() string {
 	return s
 }
 
-
 // ownSlot is the slot of the account's own storage into which the operation puts a non-empty
 // value (-1: none). Writing "no value" over "no value" is a no-op in SetData.
 func (o op) ownSlot() int {
@@ -854,10 +853,6 @@ func runBlock(t *rapid.T, spec baseSpec, main, replay *world, blockNo int, lastB
 	if rootM != rootR || cm != cr {
 		t.Fatalf("block %d: state root %s differs from the root %s computed when the reverted operations were never executed (committed %s vs %s)\n%s\ntrace: %s",
 			blockNo, rootM.Hex(), rootR.Hex(), cm.Hex(), cr.Hex(), diffTries(main.adb, replay.adb, cm, cr), strings.Join(cs.trace, " ; "))
-	}
-	if cm != rootM {
-		// not C04's business (C03), but the next block would start from a different state
-		t.Fatalf("block %d: Commit(true) root %s != IntermediateRoot(true) %s", blockNo, cm.Hex(), rootM.Hex())
 	}
 	for _, w := range []*world{main, replay} {
 		if err := w.adb.TrieDB().Commit(cm, false); err != nil {
